@@ -192,8 +192,14 @@ func TestC08Responder(t *testing.T) {
 }
 
 func runC08(rt *rapid.T, c c08Case) {
-	w, err := newWorld(worldOpt{active: c.active, equip: c.equip, connOpts: []hsms.ConnOption{
-		hsms.WithSessionID(c.session), hsms.WithSessionIDValidation(c.validate), hsms.WithT7(10 * time.Second), hsms.WithT6(5 * time.Second)}})
+	// with the automatic linktest enabled the library has transactions of its own; the probe is only
+	// let out (and left unanswered) at the very end of the sequence
+	ownProbe := rapid.IntRange(0, 4).Draw(rt, "ownProbe") == 0
+	copts := []hsms.ConnOption{hsms.WithSessionID(c.session), hsms.WithSessionIDValidation(c.validate), hsms.WithT7(10 * time.Second), hsms.WithT6(5 * time.Second)}
+	if ownProbe {
+		copts = append(copts, hsms.WithLinktestInterval(400*time.Millisecond), hsms.WithLinktestFailThreshold(3), hsms.WithT6(50*time.Millisecond), hsms.WithT7(time.Hour))
+	}
+	w, err := newWorld(worldOpt{active: c.active, equip: c.equip, connOpts: copts})
 	if err != nil {
 		rt.Fatalf("VERIF-INFRA: world: %v", err)
 	}
@@ -349,6 +355,49 @@ func runC08(rt *rapid.T, c c08Case) {
 		}
 		if got := w.conn.State(); got != want {
 			fail("State()=%v at the quiescent end, the frame history leaves the session %v", got, want)
+		}
+		if ownProbe && m.Selected && !m.HasOpenSelect {
+			// the library's own Linktest.req goes unanswered past T6; the late Linktest.rsp then has no
+			// open transaction and must be rejected with reason 3, like any other orphan response
+			p.Take()
+			// sometimes the probe's write is held up for 10 ms by a closed window, so that the two
+			// expiries of that transaction (caller deadline armed before the write, protocol timer armed
+			// after it) do not coincide
+			slowWrite := rapid.Bool().Draw(rt, "probeSlowWrite")
+			if slowWrite {
+				p.C.SetInboundWindow(4)
+				p.C.StallInbound(true)
+			}
+			time.Sleep(400 * time.Millisecond)
+			if slowWrite {
+				time.Sleep(10 * time.Millisecond)
+				p.C.SetInboundWindow(netsim.DefaultWindow)
+				p.C.StallInbound(false)
+			}
+			synctest.Wait()
+			var probe *e37.Frame
+			for _, rf := range p.Take() {
+				if rf.F.SType == e37.LinktestReq && rf.F.PType == 0 {
+					f := rf.F
+					probe = &f
+				}
+			}
+			if probe == nil {
+				fail("no Linktest.req after an idle linktest interval")
+			}
+			time.Sleep(51 * time.Millisecond) // T6 of that probe has expired
+			synctest.Wait()
+			p.Take()
+			late := e37.Frame{Session: 0xffff, SType: e37.LinktestRsp, Sys: probe.Sys}
+			_ = p.Send(late)
+			synctest.Wait()
+			got := p.Take()
+			wantRej := e37.Frame{Session: 0xffff, B2: e37.LinktestRsp, B3: 3, SType: e37.RejectReq, Sys: probe.Sys}
+			if len(got) != 1 || !frameEq(got[0].F, wantRej) {
+				fail("a Linktest.rsp arriving after its transaction timed out (T6) was answered by %v, E37 prescribes %v", got, wantRej)
+			}
+			hist = append(hist, "late Linktest.rsp after T6 => orphan-response")
+			classes["late-response-after-timeout"] = true
 		}
 	} else {
 		synctest.Wait()
